@@ -125,10 +125,12 @@ Theorem C04_missing_file_is_error_refuted :
                          (29224, 0, 82, 1%float); (29225, 1, 82, 2%float)].
 Proof. exact missing_file_is_error_refuted_lemma. Qed.
 
-(* F32 repaired: a 1 January is accepted only when the slot it closes ends on the 31 December of the
-   year before the new record's year; a gap that ends on a 1 January is "missing days" *)
+(* F32, F33 repaired: a 1 January is accepted only when the slot it closes holds the year before it
+   (JAR = year-1) up to its 31 December (MaxYearDays = length of that year); a gap that ends on a
+   1 January and a series that jumps over a whole year are "missing days" *)
 Theorem C04_year_change_needs_31dec : forall (T : Type) (NT : Num T) sy y (r : wrec T) rest Tv yrz (st : store T),
-  sy <= y -> maxd_at st (Z.to_nat (yrz - 1)) <> ylen (y - 1) ->
+  sy <= y ->
+  (s_jar (slot_at st (Z.to_nat (yrz - 1))) <> y - 1 \/ maxd_at st (Z.to_nat (yrz - 1)) <> ylen (y - 1)) ->
   rm_loop sy ((y, 1, r) :: rest) Tv yrz false st = None.
 Proof. exact @year_change_needs_31dec. Qed.
 
@@ -136,24 +138,18 @@ Theorem C04_gap_to_jan1_is_error :
   read_multi (-99)%float [] 1981 2 [(1981, 1, wr 1); (1981, 2, wr 2); (1982, 1, wr 3)] = None.
 Proof. exact gap_to_jan1_is_error_lemma. Qed.
 
-(* hence: when the reader accepts a file whose years follow the calendar (a day-1 record belongs to
-   the next year, any other to the same year), every year it has closed is complete — all years of an
-   accepted file except the first (may start late) and the last (may end early) have all their days *)
-Theorem C04_accepted_years_complete : forall (T : Type) (NT : Num T) sy (recs : list (mrec T)) Tv yrz (st : store T) yprev st' yrz',
-  sy <= yprev -> 1 <= yrz <= Z.of_nat (List.length st) ->
-  s_jar (slot_at st (Z.to_nat (yrz - 1))) = yprev ->
-  keys_ok yprev recs -> closed_years st yrz ->
+Theorem C04_missing_year_is_error :
+  read_multi (-99)%float [] 1981 3 (full_year 1981 ++ full_year 1983) = None.
+Proof. exact missing_year_is_error_lemma. Qed.
+
+(* hence, for ANY sequence of records: when the reader accepts it, every year it has closed is complete
+   (MaxYearDays = length of the stored year) — all years of an accepted file except the first (may
+   start late) and the last (may end early) have all their days *)
+Theorem C04_accepted_years_complete : forall (T : Type) (NT : Num T) sy (recs : list (mrec T)) Tv yrz (st : store T) st' yrz',
+  1 <= yrz <= Z.of_nat (List.length st) -> closed_years st yrz ->
   rm_loop sy recs Tv yrz false st = Some (st', yrz') ->
   closed_years st' yrz' /\ yrz <= yrz'.
 Proof. exact @accepted_years_complete. Qed.
-
-(* what remains open: the test looks at the length of the year before the NEW record, so a series that
-   jumps over a whole year of the same length (31 Dec 1981 -> 1 Jan 1983) is still accepted; the year
-   1982 is absent from the store and LoadYear's error for it is dropped by run.go (F9) *)
-Theorem C04_missing_year_is_error_refuted :
-  exists st, read_multi (-99)%float [] 1981 3 (full_year 1981 ++ full_year 1983) = Some st /\
-             s_jar (slot_at st 0) = 1981 /\ s_jar (slot_at st 1) = 1983 /\ find_year st 1982 = None.
-Proof. exact missing_year_is_error_refuted_lemma. Qed.
 
 (* gapfill_adjacent: a sentinel average temperature whose neighbour days are present becomes their
    mean — the neighbours being the civil day before and after: inside a year, from 31 December to
@@ -431,7 +427,7 @@ Print Assumptions C04_missing_file_is_error_refuted.
 Print Assumptions C04_year_change_needs_31dec.
 Print Assumptions C04_gap_to_jan1_is_error.
 Print Assumptions C04_accepted_years_complete.
-Print Assumptions C04_missing_year_is_error_refuted.
+Print Assumptions C04_missing_year_is_error.
 Print Assumptions C04_gapfill_inside.
 Print Assumptions C04_gapfill_31dec.
 Print Assumptions C04_gapfill_1jan.
